@@ -126,7 +126,7 @@ def h_history(s0: int, s1: int, s2: int, s3: int, e1: int, e2: int, e3: int, e4:
     return ok("history")
 
 
-HOSTCHARS = "ab1.-"
+HOSTCHARS = "aB1.-"
 PORTS = (1, 80, 11211, 65535)
 
 
@@ -162,7 +162,8 @@ def h_names(c0: int, c1: int, c2: int, n: int, port: int) -> int:
         return ok("names")
 
 
-KEYS = ["0", "1", "k", "key", "user:42", "a-b", "0123456789abcdef", "x" * 40, "", "é"]
+KEYS = ["0", "1", "k", "key", "user:42", "a-b", "0123456789abcdef", "x" * 40, "", "é", b"plain", b"o'brien", b"a\\b",
+        b"\x01\x7f", b"q\"uote"]
 NODESETS = [["10.0.0.1:11211", "10.0.0.2:11211"], ["a:1", "b:1", "c:1"], ["n1:11211", "n2:11211", "n3:11211", "n4:11211"],
             ["/tmp/a.sock", "h:11211"], ["x:1"], ["s%d:11211" % i for i in range(8)]]
 
@@ -187,7 +188,8 @@ def h_murmur(ns: int, k: int, seed: int, drop: int) -> int:
         def rule(nodeset):
             best = None
             for nd in nodeset:
-                text = nd + "-" + key
+                # the published rule hashes '<node>-<key>'; a bytes key appears as Python renders it (repr)
+                text = nd + "-" + (key if isinstance(key, str) else repr(key))
                 if any(ord(c) > 255 for c in text):
                     return None
                 sc = ref_py([ord(c) for c in text], seed)
@@ -214,7 +216,8 @@ def h_murmur(ns: int, k: int, seed: int, drop: int) -> int:
             h.add_node(gone)
             if h.get_node(key) != got:
                 return viol("re-adding", gone, "did not restore the placement of", repr(key))
-        if seed == 0 and key and all(ord(c) < 128 for c in key):
+        if seed == 0 and key and all((c if isinstance(c, int) else ord(c)) < 128 for c in key) and \
+                not any((c if isinstance(c, int) else ord(c)) in (0, 9, 10, 11, 12, 13, 32) for c in key):
             # the same placement through HashClient's routing (node names derived from the server specs)
             vclock.fresh()
             specs = [normalize_server_spec(n if n.startswith("/") else n) for n in nodes]
